@@ -38,7 +38,7 @@ def make_db(floats, vars_, labels, proof_text):
     consts = ' '.join('c%d' % i for i in range(len(labels) + 1))
     src = ['$c #Pattern |- ( ) f ' + consts + ' $.']
     if allv:
-        src.append('$v ' + ' '.join(allv) + ' $.')
+        src.append('$v ' + ' '.join(sorted(allv)) + ' $.')      # like the slicer: $v sorted, $f in database order
     for v in floats:
         src.append(f'{v}-is-pattern $f #Pattern {v} $.')
     for i, l in enumerate(labels):
@@ -97,7 +97,7 @@ def run(rep):
                              'what': 'decoded compressed proof differs from Appendix B (labels or step numbers)'})
     # oracle 2: every number decodes to itself
     for (a, b, _), ans in zip(exh, pa[len(cases):]):
-        x = ans[ans.index('(steps') + 7:-2].split() if ans.startswith('(proof') else []
+        x = ans[ans.index('(steps') + 7:-2].split() if ans.startswith('(proof') and '(steps' in ans else []
         if [int(v) for v in x] != list(range(a, b + 1)):
             bad = next((a + i for i, v in enumerate(x) if int(v) != a + i), None)
             findings.append({'key': 'number', 'range': [a, b], 'first_bad': bad, 'encoding': enc(bad) if bad else None,
@@ -108,6 +108,9 @@ def run(rep):
     wa = core.py_h(wl)
     got = []
     for ans in wa:
+        if not (ans.startswith('(proof') and '(steps' in ans):
+            findings.append({'key': 'unique', 'python': ans[:300], 'what': f'well-formed compressed words are not decoded: {ans[:80]}'})
+            break
         got += [int(v) for v in ans[ans.index('(steps') + 7:-2].split()]
     for w, n in zip(words, got):
         if enc(n) != w:
